@@ -71,13 +71,18 @@ class RangelistModel(object):
         
         rng_i=0
         while rng_i < len(self.range_l):
+            removed = False
             for r in other.range_l:
-                rng_i = self._intersect(
+                n = self._intersect(
                     self.range_l,
                     rng_i,
                     self.range_l[rng_i],
                     r)
-            rng_i += 1
+                if n < rng_i:
+                    removed = True
+                    break
+            if not removed:
+                rng_i += 1
     
     def _intersect(self,
                    ranges,
